@@ -2,7 +2,7 @@
    images as pyipmi.fru (FruInventory on bytes / array('B'), get_fru_inventory_from_file),
    and Model/FruSpec.v (the independent encoder) against the harness's Python encoder. *)
 From Coq Require Import NArith List Bool.
-From PyIpmi Require Import Lib.Res Lib.Bytes Model.FruParse Model.FruSpec.
+From PyIpmi Require Import Lib.Res Lib.Bytes Lib.Prog Model.FruIO Model.FruParse Model.FruSpec Model.FruDevice.
 Import ListNotations.
 Open Scope N_scope.
 
@@ -84,6 +84,15 @@ Definition dev_view (r : res (option inventory)) : res (area_st * area_st * area
   end.
 Definition chk_dev (img : list N) (exp : res (area_st * area_st * area_st * mr_st)) : bool :=
   res_eqb dev_eqb (dev_view (parse_inventory img)) exp.
+
+(* the composed client Model.FruDevice.device_inventory (C10's transfer model + the real area
+   classes) replayed against the replies recorded while the implementation ran
+   get_fru_inventory(id): same requests in the same order, all replies consumed, same outcome *)
+Definition chk_dev_replay (fuel : nat) (id : N) (replies : list reply) (reqs : list request)
+                          (exp : res dev_inventory) : bool :=
+  let '(out, rq, _, rest) := replay (device_inventory fuel id) replies [] [] in
+  res_eqb dev_eqb out exp && list_eqb request_eqb rq reqs &&
+  match rest with [] => true | _ => false end.
 
 (* the harness's Python encoder (written from the same format description) and the Coq
    encoder produce the same image for inventory s, s is inside the theorems' domain,
